@@ -224,7 +224,7 @@ pub fn check_variant(ctx: &Ctx, n: u64, v: &Variant, generate: bool, st: &mut St
 pub fn run(ctx: &Ctx, rep: &mut Report) {
     crate::gen_syntax::set_allow_block(false);
     rep.note("feature mask: no block strings (C07 owns their defect). Introspection meta types present in the JSON only are not compared. JSON styles: full (every key, null when empty) / minimal (optional keys absent), with and without meta types, shuffled or in definition order.");
-    let n = ctx.budget(96, 3000);
+    let n = ctx.budget(960, 24_000);
     let mut st = Stats { verdicts: 0, rejected_both: 0, accepted_both: 0, aliases: 0, aliases_equal: 0, modules: 0 };
     for case in 0..n {
         let mut rng = ctx.rng("c15", case);
